@@ -1148,6 +1148,18 @@ func (e *Exec) instrPhi(fr *Frame, st *State, x *ssa.Phi) {
 func (e *Exec) instrGo(fr *Frame, st *State, x *ssa.Go) {
 	e.sc.used["go statements: the started goroutine is not followed; only its preconditions are checked where it is started"] = true
 	cc := &x.Call
+	// "atcall CALLEE requires" clauses speak about every place the callee is invoked, go statements included
+	if afr := fr; true {
+		for afr.fc == nil && afr.outer != nil {
+			afr = afr.outer
+		}
+		if afr != fr && afr.fc != nil && len(afr.fc.AtCalls) > 0 {
+			e.atCalls(afr, fr, st, cc, x.Pos())
+		}
+	}
+	if fr.fc != nil && len(fr.fc.AtCalls) > 0 {
+		e.atCalls(fr, fr, st, cc, x.Pos())
+	}
 	if cc.IsInvoke() {
 		return
 	}
